@@ -10,6 +10,10 @@ import Frp.Gen.AuthFacts
   recording relay between a real frpc and a real frps.
 
   `C05Full` (below) is the property as written; the proved clauses are its layer-level reading.
+
+  The forced-TLS / trusted-CA / client-identity clauses are stated per LISTENER (§B2: tcp, tls-muxed,
+  kcp, websocket, quic — the QUIC listener has its own tls.Config, `quicServerTls`, a clone of
+  `svr.tlsConfig`) and per CONTROL TRANSPORT at session level (§C2), not only for the default tcp path.
 -/
 namespace Frp
 namespace C05
@@ -120,6 +124,93 @@ theorem ca_peer_without_acceptable_cert_uninterpreted (s : ServerCfg) (ct : Clie
   rw [hh]
   exact (forced_plain_peer_uninterpreted s b hf).1
 
+/-! ## B2. the same two rules on EVERY listener (tcp, tls-muxed, kcp, websocket, quic) -/
+
+theorem listeners_complete (l : Listener) : l ∈ Listener.all := by
+  cases l <;> decide
+
+/-- every listener on the network is either sniffed by `HandleListener(l, false)` or is the QUIC
+    listener; the only un-gated listener is the in-process one -/
+theorem public_listener_gate (l : Listener) :
+    (l.isPublic = true ↔ l.gate ≠ .internal) ∧
+    (l.gate = .quicTls ↔ l = .quic) ∧ (l.gate = .internal ↔ l = .sshTunnel) := by
+  cases l <;> simp [Listener.isPublic, Listener.gate]
+
+/-- `quicTLSCfg = tlsConfig.Clone()` + NextProtos: the QUIC listener's config has the SAME client
+    authentication mode, client CA pool and certificate as `svr.tlsConfig`; only ALPN differs -/
+theorem quic_tls_inherits_identity (s : ServerCfg) :
+    (quicServerTls s).clientAuth = (serverTls s).clientAuth ∧
+    (quicServerTls s).hasClientCAs = (serverTls s).hasClientCAs ∧
+    (quicServerTls s).randomCert = (serverTls s).randomCert ∧
+    (quicServerTls s).nextProtos = [frpALPN] ∧
+    { quicServerTls s with nextProtos := (serverTls s).nextProtos } = serverTls s := by
+  simp [quicServerTls, ServerTls.clone]
+
+/-- on every public listener the config a handshake runs with requires and verifies a client
+    certificate iff a trusted CA is configured -/
+theorem listenerTls_clientAuth_iff (l : Listener) (s : ServerCfg) (hl : l.isPublic = true) :
+    ∃ st, listenerTls l s = some st ∧
+      (st.clientAuth = .requireAndVerify ↔ s.trustedCA = true) ∧
+      (st.hasClientCAs = true ↔ s.trustedCA = true) := by
+  cases l <;> simp [Listener.isPublic] at hl <;>
+    simp [listenerTls, Listener.gate, quicServerTls, ServerTls.clone, serverTls, serverTlsOf] <;>
+    cases s.trustedCA <;> simp
+
+/-- on the sniffed listeners with no ALPN in play the per-listener handshake is `handshakeOk` -/
+theorem handshakeOkOn_sniff (l : Listener) (s : ServerCfg) (ct : ClientTls) (p : Pki)
+    (hg : l.gate = .sniff) (ha : ct.nextProtos = []) :
+    handshakeOkOn l s ct p = handshakeOk s ct p := by
+  simp [handshakeOkOn, listenerTls, hg, alpnOk, ha, handshakeOk, serverTls, serverTlsOf]
+
+/-- QUIC is never plaintext: a peer that does not complete the TLS handshake gets nothing
+    interpreted, with or without `force` -/
+theorem quic_never_plain (s : ServerCfg) (b : Nat) : reachesReadMsgOn .quic s b false = false := rfl
+
+/-- **forced TLS, every listener**: on no public listener does a forcing server interpret a
+    message of a peer without TLS, whatever first byte it sends -/
+theorem forced_plain_peer_uninterpreted_every_listener (l : Listener) (s : ServerCfg) (b : Nat)
+    (hl : l.isPublic = true) (h : serverForce s = true) :
+    reachesReadMsgOn l s b false = false := by
+  cases l <;> simp [Listener.isPublic] at hl <;>
+    simp [reachesReadMsgOn, Listener.gate, (forced_plain_peer_uninterpreted s b h).1]
+
+/-- a handshake with a config that requires a verified client certificate fails for a peer
+    without an acceptable one, on every listener -/
+theorem handshakeOkOn_requires_cert (l : Listener) (s : ServerCfg) (ct : ClientTls) (p : Pki)
+    (hca : s.trustedCA = true)
+    (hbad : ct.hasCert = false ∨ p.cliCertIssuer ≠ some p.srvClientCA) :
+    handshakeOkOn l s ct p = false := by
+  have hc : ∀ st : ServerTls, st.clientAuth = .requireAndVerify → clientCertAccepted st ct p = false := by
+    intro st hst
+    unfold clientCertAccepted
+    rw [hst]
+    rcases hbad with h | h <;> simp [h]
+  cases l <;>
+    simp [handshakeOkOn, listenerTls, Listener.gate, quicServerTls, ServerTls.clone, serverTls,
+      serverTlsOf, hca, hc]
+
+/-- **trusted CA, every listener**: a peer that presents no certificate, or one not signed by the
+    server's CA, gets nothing interpreted on any public listener — tcp, the tls-muxed one, kcp,
+    websocket and QUIC — whatever first byte it sends and however it configures its side. -/
+theorem ca_peer_without_acceptable_cert_uninterpreted_every_listener (l : Listener) (s : ServerCfg)
+    (ct : ClientTls) (p : Pki) (b : Nat) (hl : l.isPublic = true) (hca : s.trustedCA = true)
+    (hbad : ct.hasCert = false ∨ p.cliCertIssuer ≠ some p.srvClientCA) :
+    reachesReadMsgOn l s b (handshakeOkOn l s ct p) = false := by
+  rw [handshakeOkOn_requires_cert l s ct p hca hbad]
+  exact forced_plain_peer_uninterpreted_every_listener l s b hl
+    ((ca_forces_and_requires s hca).1)
+
+/-- converse direction (non-vacuity of the rule): with a CA the gate opens exactly for a completed
+    handshake, so what decides is the certificate check of that listener's config -/
+theorem ca_reaches_iff_handshake (l : Listener) (s : ServerCfg) (b : Nat) (hs : Bool)
+    (hl : l.isPublic = true) (hca : s.trustedCA = true) :
+    reachesReadMsgOn l s b hs = true → hs = true := by
+  intro h
+  cases hs
+  · rw [forced_plain_peer_uninterpreted_every_listener l s b hl ((ca_forces_and_requires s hca).1)] at h
+    exact h
+  · rfl
+
 /-! ## C. client side: dial options and identity -/
 
 /-- `NewClientTLSConfig`: InsecureSkipVerify iff no CA; ServerName always set -/
@@ -133,10 +224,17 @@ theorem client_ca_verifies (c : ClientCfg) (ht : c.tlsEnable = true) (hca : c.tr
     ∃ ct, clientTls c = some ct ∧ ct.insecureSkipVerify = false ∧ ct.hasRootCAs = true ∧
       ct.serverName = effServerName c ∧
       (c.serverName ≠ [] → ct.serverName = c.serverName) := by
-  refine ⟨clientTlsOf c.certGiven true (effServerName c), ?_, by simp [clientTlsOf],
-    by simp [clientTlsOf], by simp [clientTlsOf], ?_⟩
-  · cases hp : c.protocol <;> simp [clientTls, hp, ht, hca]
-  · intro hne; simp [clientTlsOf, effServerName, hne]
+  have hn : c.serverName ≠ [] → effServerName c = c.serverName := by
+    intro hne; simp [effServerName, hne]
+  cases hp : c.protocol
+  case quic =>
+    exact ⟨{ clientTlsOf c.certGiven true (effServerName c) with nextProtos := [frpALPN] },
+      by simp [clientTls, hp, ht, hca], by simp [clientTlsOf], by simp [clientTlsOf],
+      by simp [clientTlsOf], by simpa [clientTlsOf] using hn⟩
+  all_goals
+    exact ⟨clientTlsOf c.certGiven true (effServerName c),
+      by simp [clientTls, hp, ht, hca], by simp [clientTlsOf], by simp [clientTlsOf],
+      by simp [clientTlsOf], by simpa [clientTlsOf] using hn⟩
 
 /-- as coded: without a CA the client accepts any server certificate -/
 theorem client_no_ca_skips_verification (c : ClientCfg) (ct : ClientTls) (hca : c.trustedCA = false)
@@ -147,7 +245,7 @@ theorem client_no_ca_skips_verification (c : ClientCfg) (ct : ClientTls) (hca : 
 /-- as coded (observation): over QUIC with tls.enable = false the configured CA is ignored -/
 theorem quic_tls_disabled_ignores_ca (c : ClientCfg) (hp : c.protocol = .quic)
     (ht : c.tlsEnable = false) :
-    clientTls c = some (clientTlsOf false false (effServerName c)) := by
+    clientTls c = some { clientTlsOf false false (effServerName c) with nextProtos := [frpALPN] } := by
   simp [clientTls, hp, ht]
 
 theorem clientDial_tls_iff (c : ClientCfg) :
@@ -223,6 +321,100 @@ theorem tls_client_session_iff (s : ServerCfg) (c : ClientCfg) (p : Pki)
       handshakeOk s (clientTlsOf c.certGiven c.trustedCA (effServerName c)) p := by
   cases hd : c.disableCustomFirstByte <;>
     simp [sessionUp, clientFirstBytes, clientDial, clientHooks, clientTls, hp, ht, hd, sniff]
+
+/-! ## C2. sessions on every control transport -/
+
+/-- tcp, kcp and websocket clients are decided by the sniffed path -/
+theorem sessionUpOn_sniffed (s : ServerCfg) (c : ClientCfg) (p : Pki)
+    (hp : c.protocol = .tcp ∨ c.protocol = .kcp ∨ c.protocol = .websocket) :
+    sessionUpOn s c p = sessionUp s c p := by
+  rcases hp with h | h | h <;> simp [sessionUpOn, h]
+
+/-- frps does not terminate wss: no session, whatever the configuration (and no message read) -/
+theorem wss_no_session (s : ServerCfg) (c : ClientCfg) (p : Pki) (hp : c.protocol = .wss) :
+    sessionUpOn s c p = false := by
+  cases hm : s.tcpMux <;> simp [sessionUpOn, hp, innerAccepts, hm]
+
+/-- a QUIC client gets a session iff the handshake between `quicServerTls` and the client's config
+    is acceptable to both ends: the server's `force` flag and tcpMux play no role, the identity
+    rules are those of `svr.tlsConfig`; with tls.enable = false the client side has neither
+    certificate nor CA -/
+theorem quic_client_session_iff (s : ServerCfg) (c : ClientCfg) (p : Pki) (hp : c.protocol = .quic) :
+    sessionUpOn s c p =
+      handshakeOk s (clientTlsOf (c.tlsEnable && c.certGiven) (c.tlsEnable && c.trustedCA)
+        (effServerName c)) p := by
+  cases ht : c.tlsEnable <;>
+    simp [sessionUpOn, hp, clientTls, ht, reachesReadMsgOn, Listener.gate, handshakeOkOn, listenerTls,
+      quicServerTls, ServerTls.clone, alpnOk, handshakeOk, serverCertAccepted, clientCertAccepted,
+      clientTlsOf, serverTls, serverTlsOf]
+
+/-- **trusted CA, session level, every control transport**: if frps has a trusted CA, a client
+    that gets a session — over tcp, kcp, websocket, wss or quic — dialled TLS and presented a
+    certificate signed by that CA. -/
+theorem ca_session_requires_cert_every_protocol (s : ServerCfg) (c : ClientCfg) (p : Pki)
+    (hca : s.trustedCA = true) (h : sessionUpOn s c p = true) :
+    c.tlsEnable = true ∧ c.certGiven = true ∧ p.cliCertIssuer = some p.srvClientCA := by
+  cases hp : c.protocol
+  case wss => rw [wss_no_session s c p hp] at h; exact absurd h (by decide)
+  case quic =>
+    rw [quic_client_session_iff s c p hp] at h
+    cases ht : c.tlsEnable <;> cases hc : c.certGiven <;>
+      simp_all [handshakeOk, clientCertAccepted, serverTls, serverTlsOf, clientTlsOf]
+  all_goals
+    rw [sessionUpOn_sniffed s c p (by simp [hp])] at h
+    cases ht : c.tlsEnable <;> cases hd : c.disableCustomFirstByte <;> cases hm : c.tcpMux <;>
+      cases hc : c.certGiven <;>
+      simp_all [sessionUp, clientFirstBytes, clientDial, clientHooks, clientTls, sniff, serverForce,
+        ServerCfg.complete, handshakeOk, clientCertAccepted, serverTls, serverTlsOf, clientTlsOf]
+
+/-- **a client given a trusted CA refuses a server presenting another identity — on every
+    control transport** (tls.enable on; over QUIC with tls.enable off the CA is ignored, see
+    `quic_tls_disabled_ignores_ca`) -/
+theorem client_refuses_other_identity_every_protocol (s : ServerCfg) (c : ClientCfg) (p : Pki)
+    (ht : c.tlsEnable = true) (hca : c.trustedCA = true)
+    (hbad : s.certGiven = false ∨ p.srvCertIssuer ≠ some p.cliRootCA ∨
+            effServerName c ∉ p.srvCertNames) :
+    sessionUpOn s c p = false := by
+  have hacc : serverCertAccepted s (clientTlsOf c.certGiven true (effServerName c)) p = false := by
+    unfold serverCertAccepted
+    rcases hbad with h | h | h <;> simp [clientTlsOf, h]
+  have hh : handshakeOk s (clientTlsOf c.certGiven true (effServerName c)) p = false := by
+    simp [handshakeOk, hacc]
+  cases hp : c.protocol
+  case wss => exact wss_no_session s c p hp
+  case quic => rw [quic_client_session_iff s c p hp]; simpa [ht, hca] using hh
+  all_goals
+    rw [sessionUpOn_sniffed s c p (by simp [hp])]
+    cases hd : c.disableCustomFirstByte <;>
+      simp [sessionUp, clientFirstBytes, clientDial, clientHooks, clientTls, hp, ht, hca, hd, sniff, hh]
+
+/-- **forced TLS, session level, every control transport**: a client that gets a session from a
+    forcing server dialled TLS -/
+theorem force_session_requires_tls_every_protocol (s : ServerCfg) (c : ClientCfg) (p : Pki)
+    (hf : serverForce s = true) (h : sessionUpOn s c p = true) : (clientDial c).tls = true := by
+  cases hp : c.protocol
+  case wss => rw [wss_no_session s c p hp] at h; exact absurd h (by decide)
+  case quic => simp [clientDial, clientHooks, hp]
+  all_goals
+    rw [sessionUpOn_sniffed s c p (by simp [hp])] at h
+    cases ht : c.tlsEnable <;> cases hd : c.disableCustomFirstByte <;> cases hm : c.tcpMux <;>
+      simp_all [sessionUp, clientFirstBytes, clientDial, clientHooks, clientTls, sniff]
+
+/-- executable predicate for one observed connection attempt of a real client: `interpreted` = frps
+    answered with a frame (LoginResp with or without an error text) -/
+def interpretedOk (s : ServerCfg) (c : ClientCfg) (p : Pki) (interpreted : Bool) : Bool :=
+  !interpreted || sessionUpOn s c p
+
+/-- what an accepted observation means: under a trusted CA the peer dialled TLS with a certificate
+    of that CA; under force it dialled TLS -/
+theorem interpretedOk_sound (s : ServerCfg) (c : ClientCfg) (p : Pki)
+    (h : interpretedOk s c p true = true) :
+    (s.trustedCA = true →
+      c.tlsEnable = true ∧ c.certGiven = true ∧ p.cliCertIssuer = some p.srvClientCA) ∧
+    (serverForce s = true → (clientDial c).tls = true) := by
+  have hs : sessionUpOn s c p = true := by simpa [interpretedOk] using h
+  exact ⟨fun hca => ca_session_requires_cert_every_protocol s c p hca hs,
+         fun hf => force_session_requires_tls_every_protocol s c p hf hs⟩
 
 /-! ## D. what crosses the path -/
 
@@ -470,6 +662,69 @@ theorem gen_visitors :
       "xtcp.go: nathole.MakeHole", "xtcp.go: util.GetAuthKey"] := by
   constructor <;> decide +kernel
 
+/-- server/service.go: the listeners are served the way `Listener.gate` says — five sniffed /
+    internal `HandleListener` calls and the QUIC listener through `HandleQUICListener`, whose streams
+    go to `handleConnection(…, false)` with no sniff in between; the one sniff call uses
+    `svr.tlsConfig` and the completed `Force`, under `!internal` -/
+theorem gen_listener_handlers :
+    listenerHandlers =
+      ["HandleListener svr.kcpListener false", "HandleListener svr.listener false",
+       "HandleListener svr.sshTunnelListener true", "HandleListener svr.tlsListener false",
+       "HandleListener svr.websocketListener false", "HandleQUICListener svr.quicListener"] ∧
+    handleConnectionCalls =
+      ["HandleListener: frpConn internal", "HandleListener: stream internal",
+       "HandleQUICListener: netpkg.QuicStreamToNetConn(stream, frpConn) false"] ∧
+    sniffCalls = ["HandleListener: c, svr.tlsConfig, forceTLS, connReadTimeout"] ∧
+    forceTLSIs = ["svr.cfg.Transport.TLS.Force"] ∧ sniffGuard = ["for && !internal"] ∧
+    Listener.all.map Listener.gate = [.sniff, .sniff, .sniff, .sniff, .quicTls, .internal] := by
+  refine ⟨by decide +kernel, by decide +kernel, by decide +kernel, by decide +kernel,
+    by decide +kernel, rfl⟩
+
+/-- NewService: `svr.tlsConfig` is the unmodified result of `NewServerTLSConfig(cert, key, trustedCa)`;
+    the config handed to `quic.ListenAddr` is a `Clone()` of that same value on which nothing but
+    `NextProtos` is written — which is what `quicServerTls` says -/
+theorem gen_quic_tls :
+    serviceTLS = { name := "tlsConfig"
+                 , inits := ["transport.NewServerTLSConfig( cfg.Transport.TLS.CertFile, cfg.Transport.TLS.KeyFile, cfg.Transport.TLS.TrustedCaFile)"]
+                 , writes := [] } ∧
+    serviceTLSLaterWrites = [] ∧
+    quicTLS.inits = [serviceTLS.name ++ ".Clone()"] ∧
+    quicTLS.writes = ["NextProtos = []string{\"frp\"}"] ∧
+    frpALPN = Str.ofString "frp" ∧
+    (∀ s, quicServerTls s = { (serverTls s).clone with nextProtos := [frpALPN] }) := by
+  refine ⟨by decide +kernel, by decide +kernel, by decide +kernel, by decide +kernel,
+    by decide +kernel, fun _ => rfl⟩
+
+/-- pkg/transport/tls.go NewServerTLSConfig: starts from an empty config, always sets a certificate
+    (random iff cert or key path is empty), and sets RequireAndVerifyClientCert + ClientCAs exactly
+    under `caPath != ""` — `serverTlsOf` -/
+theorem gen_server_tls_config :
+    newServerTLSParams = ["certPath", "keyPath", "caPath"] ∧
+    newServerTLS =
+      { name := "base", inits := ["&tls.Config{}"]
+      , writes := ["certPath == \"\" || keyPath == \"\": Certificates = []tls.Certificate{*cert}",
+                   "!(certPath == \"\" || keyPath == \"\"): Certificates = []tls.Certificate{*cert}",
+                   "caPath != \"\": ClientAuth = tls.RequireAndVerifyClientCert",
+                   "caPath != \"\": ClientCAs = pool"] } ∧
+    (∀ cert ca, serverTlsOf cert ca =
+      { clientAuth := if ca then .requireAndVerify else .noClientCert, hasClientCAs := ca
+      , randomCert := !cert, nextProtos := [] }) := by
+  refine ⟨by decide +kernel, by decide +kernel, fun _ _ => rfl⟩
+
+/-- client/connector.go Open (quic): the configured config iff tls.enable, else one with no
+    certificate / CA; then NextProtos — `clientTls` for `.quic` -/
+theorem gen_client_quic_tls :
+    clientQuicTLS =
+      { name := "tlsConfig"
+      , inits := ["lo.FromPtr(c.cfg.Transport.TLS.Enable): transport.NewClientTLSConfig( c.cfg.Transport.TLS.CertFile, c.cfg.Transport.TLS.KeyFile, c.cfg.Transport.TLS.TrustedCaFile, sn)",
+                  "!(lo.FromPtr(c.cfg.Transport.TLS.Enable)): transport.NewClientTLSConfig(\"\", \"\", \"\", sn)"]
+      , writes := ["NextProtos = []string{\"frp\"}"] } ∧
+    (∀ c : ClientCfg, c.protocol = .quic → clientTls c =
+      some { clientTlsOf (c.tlsEnable && c.certGiven) (c.tlsEnable && c.trustedCA) (effServerName c)
+             with nextProtos := [frpALPN] }) := by
+  refine ⟨by decide +kernel, fun c hp => ?_⟩
+  cases ht : c.tlsEnable <;> simp [clientTls, hp, ht]
+
 end Generated
 
 /-! ## Non-vacuity -/
@@ -490,6 +745,20 @@ example : sessionUp { force := false, trustedCA := true, certGiven := true }
     , serverName := [103], serverAddr := [49] }
     { srvCertIssuer := some 1, srvCertNames := [[102]], cliRootCA := 1, cliCertIssuer := some 1
     , srvClientCA := 1 } = false := by decide
+-- QUIC: a mutual-TLS session that comes up, and the same peers with a certificate of another CA /
+-- with no certificate: refused; force plays no role
+example : sessionUpOn { force := false, trustedCA := true, certGiven := true }
+    { tlsEnable := true, disableCustomFirstByte := true, protocol := .quic, trustedCA := false
+    , certGiven := true, serverName := [], serverAddr := [49] }
+    { srvCertIssuer := some 1, cliCertIssuer := some 1, srvClientCA := 1 } = true := by decide
+example : sessionUpOn { force := false, trustedCA := true, certGiven := true }
+    { tlsEnable := true, disableCustomFirstByte := true, protocol := .quic, trustedCA := false
+    , certGiven := true, serverName := [], serverAddr := [49] }
+    { srvCertIssuer := some 1, cliCertIssuer := some 2, srvClientCA := 1 } = false := by decide
+example : sessionUpOn { force := true, trustedCA := false, certGiven := false }
+    { tlsEnable := false, disableCustomFirstByte := true, protocol := .quic, trustedCA := false
+    , certGiven := false, serverName := [], serverAddr := [49] } {} = true := by decide
+example : (Listener.all.filter Listener.isPublic).length = 5 := rfl
 -- the payload IS clear in some configuration (the predicate is not trivially false/true)
 example : payloadClear { tls := false, internal := false, useEncryption := false } = true := rfl
 example : holdsOn { tls := false, internal := false, useEncryption := true }
